@@ -1,6 +1,7 @@
 package props
 
 import (
+	"reflect"
 	"crypto/sha256"
 	"encoding/base64"
 	"encoding/json"
@@ -53,11 +54,7 @@ func TakeSnap(w *world.World, o SnapOpts) Snap {
 				a.Info.ProcessName, "|", a.Info.ProcessPath, "|", a.Info.ProcessPID, "|", a.Info.ProcessTID, "|", a.Info.ProcessPPID, "|", a.Info.ProcessArch, "|",
 				a.Info.Elevated, "|", a.Info.OSVersion, "|", a.Info.OSArch, "|", a.Info.SleepDelay, "|", a.Info.SleepJitter, "|", a.Info.KillDate, "|", a.Info.WorkingHours, "|", a.Info.MagicValue)
 		}
-		var tids []string
-		for _, t := range a.Tasks {
-			tids = append(tids, fmt.Sprintf("%x", t.RequestID))
-		}
-		s[k+".tasks"] = strings.Join(tids, ",")
+		s[k+".tasks"] = strings.Join(OutstandingIDs(a), ",")
 		s[k+".queue"] = fmt.Sprint(len(a.JobQueue))
 		par := ""
 		if a.Pivots.Parent != nil {
@@ -169,4 +166,41 @@ func effectClass(d []string) string {
 	}
 	sort.Strings(ks)
 	return strings.Join(ks, "+")
+}
+
+// OutstandingIDs lists the request ids the teamserver holds as outstanding for an agent. It reads
+// the field by reflection so that the harness keeps building when the container behind it changes
+// (a slice of jobs today; a map keyed by request id would do as well).
+func OutstandingIDs(a any) []string {
+	v := reflect.ValueOf(a)
+	for v.Kind() == reflect.Ptr {
+		v = v.Elem()
+	}
+	f := v.FieldByName("Tasks")
+	var out []string
+	if !f.IsValid() {
+		return out
+	}
+	switch f.Kind() {
+	case reflect.Slice, reflect.Array:
+		for i := 0; i < f.Len(); i++ {
+			e := f.Index(i)
+			for e.Kind() == reflect.Ptr || e.Kind() == reflect.Interface {
+				e = e.Elem()
+			}
+			if e.Kind() == reflect.Struct {
+				if id := e.FieldByName("RequestID"); id.IsValid() {
+					out = append(out, fmt.Sprintf("%x", id.Interface()))
+					continue
+				}
+			}
+			out = append(out, fmt.Sprintf("%x", e.Interface()))
+		}
+	case reflect.Map:
+		for _, k := range f.MapKeys() {
+			out = append(out, fmt.Sprintf("%x", k.Interface()))
+		}
+		sort.Strings(out)
+	}
+	return out
 }
